@@ -26,6 +26,7 @@ func runC14(r *engine.Run) {
 	r.Rule("AGREE-origin", "OriginTracker.Write and OriginTracker.Read use the same (byte order, field) sequence; writeNodePrefix and CreateNode agree on the header order (one code byte, then the origin tracker, then the body)")
 	r.Rule("AGREE-fields", "for each node type the number of separators written by encode (with constant loop multiplicity) equals the number of separator scans in Decode, the fields are written and read in the same order, child keys are hex on both sides and the node key raw on both sides, and the only fields that may contain a separator byte (value bytes, raw node key) are written after the last separator")
 	r.Rule("FRESH-node", "see C03: no trie operation edits in place a node object that the store or the node cache handed out: the memory store would then hold that object under the hash it had before the edit (an entry that is not addressed by its own hash)")
+	r.Rule("AGREE-fieldset", "for LeafNode, FullNode and ExtensionNode: every field the private encode reads has a buffer write that depends on it (it is persisted and hashed); Decode assigns exactly those fields; CloneNode (the copy the memory store keeps) sets each of them and the origin tracker. Accessor methods (GetValue/SetValue, GetChild/PutChild, ...) count as uses of the field they stand for")
 	r.NotDec = append(r.NotDec, "byte-exact round trip for every value (value-level)")
 	orderStamp(r, "KEY-own-hash")
 	keyOwnHash(r)
@@ -35,6 +36,7 @@ func runC14(r *engine.Run) {
 	copyValue(r, "COPY-value")
 	lockstep(r)
 	freshNode(r, "C14")
+	agreeFieldSet(r, "AGREE-fieldset")
 }
 
 func keyOwnHash(r *engine.Run) {
@@ -657,4 +659,177 @@ func lockstep(r *engine.Run) {
 	}
 	r.Check(same, rule, fn(f)+"|keys/nodes", r.P.Pos(mp.Pos()), fmt.Sprintf("both lists are written in the same %d block(s)", len(kw)),
 		fmt.Sprintf("the key list is written in %d block(s) but the node list in %d: after a partial flush or reset keys[i] no longer belongs to nodes[i], so nodes are stored under foreign hashes", len(kw), len(nw)))
+}
+
+// ---- AGREE-fieldset: the fields a node persists are the fields it restores -------
+
+// accessor methods that stand for a field of the node
+var nodeFieldOfMethod = map[string]string{
+	"HasValue": "Value", "GetValue": "Value", "GetValueBytes": "Value", "SetValue": "Value",
+	"GetChild": "Children", "PutChild": "Children", "GetNumChildren": "Children",
+	"SetOrigin": "OriginTrackerNode", "SetVersion": "OriginTrackerNode", "SetOriginTracker": "OriginTrackerNode",
+	"GetOrigin": "OriginTrackerNode", "GetVersion": "OriginTrackerNode",
+}
+
+// fieldUses: the fields of obj (a pointer to a node struct) that f reads /
+// writes, directly or through the accessor methods above.
+func fieldUses(f *ssa.Function, obj ssa.Value) (reads, writes map[string][]ssa.Value) {
+	reads, writes = map[string][]ssa.Value{}, map[string][]ssa.Value{}
+	isObj := func(v ssa.Value) bool { return v == obj }
+	engine.Instrs(f, func(in ssa.Instruction) {
+		switch x := in.(type) {
+		case *ssa.UnOp:
+			if x.Op != token.MUL {
+				return
+			}
+			a := x.X
+			if ia, ok := a.(*ssa.IndexAddr); ok {
+				a = ia.X
+			}
+			if fa, ok := a.(*ssa.FieldAddr); ok && isObj(fa.X) {
+				nm := engine.FieldOf(fa).Name()
+				reads[nm] = append(reads[nm], x)
+			}
+		case *ssa.Store:
+			a := x.Addr
+			if ia, ok := a.(*ssa.IndexAddr); ok {
+				a = ia.X
+			}
+			if fa, ok := a.(*ssa.FieldAddr); ok && isObj(fa.X) {
+				nm := engine.FieldOf(fa).Name()
+				writes[nm] = append(writes[nm], x.Val)
+			}
+		case *ssa.Call:
+			recv, okm := ssa.Value(nil), false
+			name := ""
+			if x.Call.IsInvoke() {
+				recv, name, okm = x.Call.Value, x.Call.Method.Name(), true
+			} else if sc := x.Call.StaticCallee(); sc != nil && sc.Signature.Recv() != nil && len(x.Call.Args) > 0 {
+				recv, name, okm = x.Call.Args[0], sc.Name(), true
+			}
+			if !okm || !isObj(recv) {
+				// copy(obj.F[i], ...) / range over field handled through loads
+				if b, ok := x.Call.Value.(*ssa.Builtin); ok && b.Name() == "copy" {
+					if ld, ok := x.Call.Args[0].(*ssa.UnOp); ok {
+						a := ld.X
+						if ia, ok := a.(*ssa.IndexAddr); ok {
+							a = ia.X
+						}
+						if fa, ok := a.(*ssa.FieldAddr); ok && isObj(fa.X) {
+							nm := engine.FieldOf(fa).Name()
+							writes[nm] = append(writes[nm], x.Call.Args[1])
+						}
+					}
+				}
+				return
+			}
+			fld, known := nodeFieldOfMethod[name]
+			if !known {
+				return
+			}
+			if strings.HasPrefix(name, "Set") || strings.HasPrefix(name, "Put") {
+				var v ssa.Value = x
+				if len(x.Call.Args) > 0 {
+					v = x.Call.Args[len(x.Call.Args)-1]
+				}
+				writes[fld] = append(writes[fld], v)
+			} else {
+				reads[fld] = append(reads[fld], x)
+			}
+		}
+	})
+	return
+}
+
+func agreeFieldSet(r *engine.Run, rule string) {
+	n := 0
+	for _, T := range []string{"LeafNode", "FullNode", "ExtensionNode", "ValueNode"} {
+		encName := "encode"
+		if T == "ValueNode" {
+			encName = "Encode" // the value node has no separate private encoder and no structural copy
+		}
+		enc := r.Fn(rule, pkgUtil, T, encName)
+		dec := r.Fn(rule, pkgUtil, T, "Decode")
+		var cln *ssa.Function
+		if T != "ValueNode" {
+			cln = r.Fn(rule, pkgUtil, T, "CloneNode")
+		}
+		if enc == nil || dec == nil || (cln == nil && T != "ValueNode") {
+			continue
+		}
+		// persisted: fields read by encode, each with a buffer write that depends on it
+		reads, _ := fieldUses(enc, enc.Params[0])
+		var bufWrites []*ssa.Call
+		engine.Instrs(enc, func(in ssa.Instruction) {
+			if c, ok := in.(*ssa.Call); ok && (extCalleeIs(c, "bytes", "Buffer", "Write") || extCalleeIs(c, "bytes", "Buffer", "WriteString")) {
+				bufWrites = append(bufWrites, c)
+			}
+		})
+		var persisted []string
+		for fld, vals := range reads {
+			persisted = append(persisted, fld)
+			written := false
+			for _, w := range bufWrites {
+				for _, v := range vals {
+					if dependsOn(w.Call.Args[1], v) {
+						written = true
+					}
+				}
+			}
+			n++
+			r.Check(written, rule, fn(enc)+"|writes "+fld, r.P.Pos(enc.Pos()), "a buffer write depends on the field",
+				"the encoder reads field "+fld+" but no buffer write depends on it: the field is not persisted (and not hashed), so a decoded node differs from the stored one")
+		}
+		sort.Strings(persisted)
+		_, dwAll := fieldUses(dec, dec.Params[0])
+		// an assignment of the nil constant restores nothing
+		dw := map[string][]ssa.Value{}
+		for fld, vals := range dwAll {
+			for _, v := range vals {
+				if !nilConst(v) {
+					dw[fld] = append(dw[fld], v)
+				}
+			}
+		}
+		for _, fld := range persisted {
+			n++
+			_, ok := dw[fld]
+			r.Check(ok, rule, fn(dec)+"|restores "+fld, r.P.Pos(dec.Pos()), "the decoder assigns the persisted field",
+				"the decoder never assigns field "+fld+" which the encoder persists: a node read back from a store differs from the node that was written (other hash, other content)")
+		}
+		for fld := range dw {
+			found := false
+			for _, p := range persisted {
+				found = found || p == fld
+			}
+			n++
+			r.Check(found, rule, fn(dec)+"|only persisted "+fld, r.P.Pos(dec.Pos()), "assigned field is persisted", "the decoder assigns field "+fld+" which the encoder does not write")
+		}
+		if cln == nil {
+			continue
+		}
+		// the structural copy covers the persisted fields and the origin tracker
+		var cloneObj ssa.Value
+		engine.Instrs(cln, func(in ssa.Instruction) {
+			if al, ok := in.(*ssa.Alloc); ok && al.Heap {
+				if nm := namedOf(al.Type()); nm != nil && nm.Obj().Name() == T {
+					cloneObj = al
+				}
+			}
+		})
+		if cloneObj == nil {
+			r.Anchor(rule, fmt.Errorf("unresolved anchor: clone object of %s", fn(cln)))
+			continue
+		}
+		_, cw := fieldUses(cln, cloneObj)
+		for _, fld := range append(append([]string{}, persisted...), "OriginTrackerNode") {
+			n++
+			_, ok := cw[fld]
+			r.Check(ok, rule, fn(cln)+"|copies "+fld, r.P.Pos(cln.Pos()), "the copy sets the field",
+				"CloneNode does not copy field "+fld+": the copy kept by the memory store differs from the node it was given (other hash than the key it is stored under)")
+		}
+	}
+	if n < 20 {
+		r.Anchor(rule, fmt.Errorf("unresolved anchor: %d field obligations over the node codecs", n))
+	}
 }
